@@ -8,9 +8,9 @@ use serde_json::json;
 pub const META: PropMeta = PropMeta {
     id: "C15",
     level: "exploration",
-    rule: "inputs: every string over the 9-character alphabet `{}()<>,a ` up to length 7 (quick) / 9 (thorough), enumerated completely (exhaustive=true refers to this finite space); random strings up to length 400 built from nested scopes whose bodies straddle the 32-character look-ahead; deep unbalanced closers; every type description produced for generated registries and for Polkadot ids. Oracles per input: no panic; output length <= n*(4n+3); whitespace-stripped output == whitespace-stripped input; for properly nested whitespace-free input an output-side indentation checker (scope 'broken' iff its opener is directly followed by a newline; after every newline exactly 4 spaces per open broken scope, minus one level before the closer of a broken scope, plus the one separating space before `{`). non-trivial = contains a bracket or comma; distinct by construction for the enumeration, by hash for random inputs.",
+    rule: "inputs: every string over the 9-character alphabet `{}()<>,a ` up to length 7 (quick) / 9 (thorough), enumerated completely (exhaustive=true refers to this finite space); random strings up to length 400 built from nested scopes whose bodies straddle the 32-character look-ahead; 9..40 and 41..130 scopes open at once (mixed kinds and one bracket kind only); deep unbalanced closers; every type description produced for generated registries and for Polkadot ids. Oracles per input: no panic; output length <= n*(4n+3); whitespace-stripped output == whitespace-stripped input; for properly nested whitespace-free input an output-side indentation checker (scope 'broken' iff its opener is directly followed by a newline; after every newline exactly 4 spaces per open broken scope, minus one level before the closer of a broken scope, which must start a line of its own, plus the one separating space before `{`). non-trivial = contains a bracket or comma; distinct by construction for the enumeration, by hash for random inputs.",
     assumptions: &["strings beyond the enumerated length are sampled, not enumerated"],
-    required_counters: &["indent_rule_checked", "newlines_checked", "big_scopes_seen", "small_scopes_seen"],
+    required_counters: &["indent_rule_checked", "newlines_checked", "big_scopes_seen", "small_scopes_seen", "closers_of_broken_scopes_on_own_line"],
     floor: (1_000_000, 50_000_000),
     shards: (16, 16),
 };
@@ -21,6 +21,7 @@ pub struct FmtObs {
     pub newlines: u64,
     pub big: u64,
     pub small: u64,
+    pub broken_closers: u64,
     pub indent_checked: bool,
 }
 
@@ -75,7 +76,22 @@ fn check_indent(out: &str, obs: &mut FmtObs) -> Result<(), String> {
                 i += 1;
             }
             '}' | ')' | '>' => {
-                st.pop();
+                // "a closing bracket is written at its opener's depth": the closer of a scope that
+                // was broken over several lines starts a line of its own (the number of spaces on
+                // that line is judged at the line break)
+                if let Some((_, true)) = st.pop() {
+                    let mut k = i;
+                    while k > 0 && ch[k - 1] == ' ' {
+                        k -= 1;
+                    }
+                    if k == 0 || ch[k - 1] != '\n' {
+                        return Err(format!(
+                            "the closer {c:?} at output offset {i} ends a scope that was broken over several lines but does not start a line of its own ({} scopes still open)",
+                            st.len()
+                        ));
+                    }
+                    obs.broken_closers += 1;
+                }
                 i += 1;
             }
             '\n' => {
@@ -172,13 +188,18 @@ pub fn random_input<R: Rng>(rng: &mut R) -> String {
     match rng.gen_range(0..11) {
         10 => {
             // deep nesting: 9..40 scopes open at once (indentation far beyond the everyday case)
-            let depth = rng.gen_range(9..40);
+            // ... and, every third time, 41..130 scopes, half of those of ONE bracket kind (a
+            // per-kind scope stack of fixed capacity shows only there); the nesting itself makes
+            // all but the innermost scopes big, so no filler is needed
+            let very_deep = rng.gen_range(0..3) == 0;
+            let depth = if very_deep { rng.gen_range(41..130) } else { rng.gen_range(9..40) };
+            let one_kind = if very_deep && rng.gen_bool(0.5) { Some(rng.gen_range(0..3)) } else { None };
             let mut closers = Vec::new();
             for _ in 0..depth {
-                let (o, c) = [('{', '}'), ('(', ')'), ('<', '>')][rng.gen_range(0..3)];
+                let (o, c) = [('{', '}'), ('(', ')'), ('<', '>')][one_kind.unwrap_or_else(|| rng.gen_range(0..3))];
                 s.push_str(["x", "ab", ""][rng.gen_range(0..3)]);
                 s.push(o);
-                if o != '{' {
+                if o != '{' && !very_deep {
                     // make the scope big: more than 32 characters before it closes
                     s.push_str("aaaaaaaaaaaaaaaaaaaaaaaaaaaaaaaaaaaa,");
                 }
@@ -225,12 +246,13 @@ pub fn random_input<R: Rng>(rng: &mut R) -> String {
 fn record(ctx: &mut Ctx, obs: &FmtObs) {
     ctx.count("newlines_checked", obs.newlines);
     ctx.count("big_scopes_seen", obs.big);
+    ctx.count("closers_of_broken_scopes_on_own_line", obs.broken_closers);
     ctx.count("small_scopes_seen", obs.small);
 }
 
 pub fn run(ctx: &mut Ctx) {
     let max_len = ctx.tier.pick(7usize, 9usize);
-    let mut obs = FmtObs { newlines: 0, big: 0, small: 0, indent_checked: false };
+    let mut obs = FmtObs { newlines: 0, big: 0, small: 0, broken_closers: 0, indent_checked: false };
     let mut nontrivial = 0u64;
     let mut evals = 0u64;
     let mut indent_checked = 0u64;
@@ -344,7 +366,7 @@ pub fn run(ctx: &mut Ctx) {
 
 pub fn replay(ctx: &mut Ctx, v: &serde_json::Value) {
     let s = v["input"].as_str().unwrap_or("").to_string();
-    let mut obs = FmtObs { newlines: 0, big: 0, small: 0, indent_checked: false };
+    let mut obs = FmtObs { newlines: 0, big: 0, small: 0, broken_closers: 0, indent_checked: false };
     if let Err((key, what)) = check_format(&s, &mut obs) {
         ctx.violation(key, what, v.clone());
     }
